@@ -18,6 +18,37 @@ Definition maxsize : nat := LRU_MAXSIZE.
 (* the components of the process state (the four places of the header comment) *)
 Inductive comp := CLru | CMode | CLogCfg | CLogDis.
 
+(* The static inventory of the places where the code can keep something from one call to the next
+   (tools/tables/t18_cache.py reads it off the working tree on every run: functools caches, `global` statements,
+   class-level containers, mutable default arguments, in-function writes to module-level tables, writes to other
+   modules' state, functions that change an object they were handed) against what this model accounts for:
+     - the one functools cache is `lru`;  the `global` statements are those of `mode`, `logcfg`, `logdis`;
+     - the three class-level sets of the vendored parser are constant tables (nothing writes a module-level or
+       class-level table: STATE_TABLE_WRITES is empty, and the residue oracle watches their content);
+     - setup_logging configures the logging module (a write-only sink; C15);
+     - _apply_setting fills the dict parse_config has just created for it.
+   Anything else appearing in the source makes `state_inventory_ok` false: the model is missing process state. *)
+Fixpoint strs_eqb (a b : list str) : bool :=
+  match a, b with
+  | [], [] => true
+  | x :: a', y :: b' => str_eqb x y && strs_eqb a' b'
+  | _, _ => false
+  end.
+Definition expected_caches : list str := [$"cli/__init__.py:_load_handler"].
+Definition expected_globals : list str :=
+  [$"core/config.py:configure_logging:_log_config"; $"core/config.py:configure_logging:_log_disabled";
+   $"core/config.py:log_decision:_log_disabled"; $"dippy.py:main:MODE"].
+Definition expected_class_tables : list str :=
+  [$"vendor/parable.py:Lexer.RESERVED_WORDS"; $"vendor/parable.py:Parser.COND_BINARY_OPS"; $"vendor/parable.py:Parser.COND_UNARY_OPS"].
+Definition expected_foreign_writes : list str :=
+  [$"dippy.py:setup_logging:logging.basicConfig()"; $"dippy.py:setup_logging:logging.raiseExceptions="].
+Definition expected_argument_writes : list str := [$"core/config.py:_apply_setting:settings"].
+Definition state_inventory_ok : bool :=
+  strs_eqb STATE_FUNCTOOLS_CACHES expected_caches && strs_eqb STATE_GLOBAL_STATEMENTS expected_globals &&
+  strs_eqb STATE_CLASS_MUTABLES expected_class_tables && strs_eqb STATE_MUTABLE_DEFAULTS [] &&
+  strs_eqb STATE_TABLE_WRITES [] && strs_eqb STATE_FOREIGN_WRITES expected_foreign_writes &&
+  strs_eqb STATE_ARGUMENT_WRITES expected_argument_writes.
+
 Section Cache.
   Variable value : Type.                 (* an imported handler module (or None after ImportError) *)
   Variable load : str -> value.          (* importlib.import_module(".<name>", "dippy.cli"): deterministic *)
@@ -126,12 +157,6 @@ Section Cache.
   (* What one call leaves behind (the residue oracle of harness/c18.py measures exactly this on the real
      process: it snapshots every object reachable from the dippy modules before and after each call).
      The handler cache is compared by its keys in order (under Inv the values are a function of the keys). *)
-  Fixpoint strs_eqb (a b : list str) : bool :=
-    match a, b with
-    | [], [] => true
-    | x :: a', y :: b' => str_eqb x y && strs_eqb a' b'
-    | _, _ => false
-    end.
   Definition hmode_eqb (a b : hmode) : bool :=
     match a, b with HClaude, HClaude | HGemini, HGemini | HCursor, HCursor => true | _, _ => false end.
   Definition logcfg_eqb (a b : option (str * bool)) : bool :=
